@@ -185,7 +185,7 @@ def run_one(impl, cfg, timeout=120, env=None):
     env = dict(env or {})
     if cfg.get('tz'):
         env['TZ'] = cfg['tz']       # a POSIX zone that is not UTC (no tz database needed): local time != UTC for the child
-    rc, out, err = vlib.sh([impl], inp=(line + '\n').encode(), timeout=timeout, env=env)
+    rc, out, err = vlib.sh([impl] + (['--no-app-first'] if cfg.get('noappfirst') else []), inp=(line + '\n').encode(), timeout=timeout, env=env)
     return (rc,) + parse_out(out) + (err,)
 
 
@@ -210,6 +210,16 @@ def special_configs(chk, reps):
     return cfgs
 
 
+def noapp_configs(chk, reps):
+    """moveToOwnThread() called (and messages logged) while NO QCoreApplication exists yet; the application object is created
+    afterwards, more messages are logged from the main thread and a second thread, the main thread spins its event loop until all
+    are delivered: every handler step must still run on the logger thread (never on the caller once it runs an event loop).
+    noappfirst=0 is the control: the same scenario with the application object present from the start."""
+    return [{'mode': 'noapp', 'n': 2, 'per': chk.rng.choice([3, 20, 100]), 'seed': chk.rng.randrange(1, 2 ** 31), 'perturb': chk.rng.choice([0, 1, 2]),
+             'sinkdelay': chk.rng.choice([0, 1]), 'stall': 0, 'tz': '', 'tfmt': chk.rng.choice([0, 1]), 'noappfirst': f}
+            for _ in range(reps) for f in (1, 0)]
+
+
 def long_drain_configs(chk, thorough):
     """a slow sink and a burst worth 8 s of sink work queued when resetOwnThread() is called (more than any grace period - 3 s of
     draining + wait(3000) - a stop could apply): every message must still reach the sink, in order, on the logger thread"""
@@ -230,7 +240,7 @@ def evaluate(chk, model, cfg, res, stats, report):
     n, per, mode = cfg['n'], cfg['per'], cfg['mode']
     mq = re.search(r'quotas=([\d,]+)', hdr or '')
     quotas = [int(x) for x in mq.group(1).split(',')] if mq else [per] * n
-    cmode = 'logger' if mode == 'relog' else ('bare' if mode in DRAIN else mode)      # how the twin records were made
+    cmode = 'logger' if mode == 'relog' else ('bare' if mode in DRAIN or mode == 'noapp' else mode)      # how the twin records were made
     if rc != 0 or hdr is None or 'AddressSanitizer' in err or 'runtime error' in err:
         kind = 'hang' if rc == 124 else ('sanitizer' if ('AddressSanitizer' in err or 'runtime error' in err) else 'crash')
         stats['kinds'][kind] = stats['kinds'].get(kind, 0) + 1
@@ -238,6 +248,13 @@ def evaluate(chk, model, cfg, res, stats, report):
                dict(cfg, kind=kind, rc=rc, stderr=err[-1500:]), kind)
         return
     stats['events'] += len(ev); stats['deliveries'] += len(asy)
+    if mode == 'noapp':
+        ma = re.search(r'app_at_move=(-?\d+)', hdr)
+        want_app = 0 if cfg.get('noappfirst') else 1
+        if not ma or int(ma.group(1)) != want_app:
+            chk.broke('the harness did not set up the requested application-object state at moveToOwnThread() time', dict(cfg, kind='noapp_setup', header=hdr))
+        stats['noapp_runs' if cfg.get('noappfirst') else 'noapp_control_runs'] += 1
+        stats['deliveries_moved_before_app'] += len(asy) if cfg.get('noappfirst') else 0
     # --- a sink that logs from the logger thread: the nested message is queued like any other, the pipeline never runs nested
     mn = re.search(r'max_nesting=(\d+)', hdr)
     if mode == 'relog':
@@ -303,8 +320,11 @@ def evaluate(chk, model, cfg, res, stats, report):
             break
         if w != 1:
             stats['kinds']['off_worker'] = stats['kinds'].get('off_worker', 0) + 1
-            report('message %d of producer %d was run through the sink on a thread that is not the logger thread' % (i, p),
-                   dict(cfg, kind='off_worker', producer=p, index=i, delivery=k), 'off_worker')
+            report('message %d of producer %d was run through the sink on a thread that is not the logger thread (ownThread())%s' % (i, p,
+                   '; moveToOwnThread() was called before the QCoreApplication existed, the application object was created afterwards and the main '
+                   'thread ran its event loop' if cfg.get('noappfirst') else ''),
+                   dict(cfg, kind='off_worker', producer=p, index=i, delivery=k, deliveries_off_the_logger_thread=sum(1 for a in asy if a[3] != 1),
+                        deliveries=len(asy), app_exists_at_moveToOwnThread=(0 if cfg.get('noappfirst') else 1)), 'off_worker')
             break
     # --- every sink entry point (send AND flush) on the logger thread only
     stats['fatal_msgs'] += sum(1 for v in tw.values() if v[0] == '3')
@@ -380,14 +400,14 @@ def run():
                    'extraction ExtrOcamlBasic, ocaml/drv_async.ml; harness/h_async.cpp (tickets only in harness code and the hook)',
                    'QThread, QMutex, QAtomicInt, QCoreApplication::postEvent are modelled, not verified']
     chk.assumptions = ["Qt's posted-event queue is FIFO per receiver at equal priority (ASSUMED; the model's queue is a FIFO list)",
-                       'a QCoreApplication exists and the worker is stopped through resetOwnThread() (exit paths are C04)',
+                       'a QCoreApplication exists (at the latest before the logger thread is stopped; moveToOwnThread() before it exists is exercised) and the worker is stopped through resetOwnThread() (exit paths are C04)',
                        'count-and-post is one atomic step inside the critical section of the handler mutex',
                        'null C string and "" are identified in every observation (the copy constructor turns nullptr into "")']
     proof_ok = chk.proof(vlib.proof_leg('Properties_C03', ['async']))
     model = vlib.build_model('async')
     impl = vlib.build_harness('async')
     thorough = chk.tier == 'thorough'
-    cfgs = long_drain_configs(chk, thorough) + stall_configs(chk, 40000 if thorough else 10400, 1500) + special_configs(chk, 3 if thorough else 1) + gen_configs(chk, 8 if thorough else 2, 1200)
+    cfgs = noapp_configs(chk, 3 if thorough else 1) + long_drain_configs(chk, thorough) + stall_configs(chk, 40000 if thorough else 10400, 1500) + special_configs(chk, 3 if thorough else 1) + gen_configs(chk, 8 if thorough else 2, 1200)
     if not proof_ok:
         cfgs += gen_configs(chk, 3, 1200) + stall_configs(chk, 40000, 2500) + special_configs(chk, 2) + long_drain_configs(chk, True)[1:]
     stats = {'events': 0, 'deliveries': 0, 'kinds': {}, 'model_copies': 0, 'model_disagreements': 0, 'acceptor_runs': 0,
@@ -395,13 +415,20 @@ def run():
              'stalled_sink_runs': 0, 'max_call_ms_while_sink_stalled': 0, 'fatal_msgs': 0, 'relog_runs': 0, 'drain_runs': 0,
              'max_call_ms_during_drain': 0, 'nul_texts': 0, 'max_backlog_ms_at_reset': 0,
              'empty_texts': 0, 'empty_texts_delivered': 0, 'empty_first_or_last': 0,
-             'time_format_runs': 0, 'rendered_times_checked': 0, 'model_time_source': None}
+             'time_format_runs': 0, 'rendered_times_checked': 0, 'model_time_source': None, 'model_sink_thread': None,
+             'noapp_runs': 0, 'noapp_control_runs': 0, 'deliveries_moved_before_app': 0}
     # what the translated TimeToken reads for %{time process} / %{time boot} (the model's render_rel is evaluated with it)
     _, ts_out, _ = vlib.run_lines(model, ['-'], ['tsrc'])
     stats['model_time_source'] = (ts_out or ['?'])[0].strip()
     if stats['model_time_source'] != 'process=message boot=message':
         chk.broke('the translated time formatter does not render %%{time process} / %%{time boot} from the time stamp carried by the message: %s'
                   % stats['model_time_source'], {'kind': 'time_source', 'model_time_source': stats['model_time_source']})
+    # the thread the model predicts for the sink steps, application object present / absent at moveToOwnThread() time
+    _, wt_out, _ = vlib.run_lines(model, ['-'], ['wthread'])
+    stats['model_sink_thread'] = (wt_out or ['?'])[0].strip()
+    if stats['model_sink_thread'] != 'app=own noapp=own':
+        chk.broke('the translated moveToOwnThread() does not give the worker object the affinity of the own thread unconditionally: the model '
+                  'predicts the sink steps on %s' % stats['model_sink_thread'], {'kind': 'worker_affinity', 'model_sink_thread': stats['model_sink_thread']})
     reported = [0]
 
     def report(what, replay, kind):
@@ -444,7 +471,7 @@ def run():
                     'model_copies_compared': stats['model_copies'], 'model_vs_impl_disagreements': stats['model_disagreements'],
                     'traces_fed_to_acceptor': stats['acceptor_runs'], 'max_backlog_seen': stats['max_backlog'],
                     'runs_with_backlog_ge_2': stats['runs_with_backlog'],
-                    'mode_histogram': {m: sum(1 for c, _ in results if c['mode'] == m) for m in ('bare', 'logger', 'relog', 'drain', 'drainlast')},
+                    'mode_histogram': {m: sum(1 for c, _ in results if c['mode'] == m) for m in ('bare', 'logger', 'relog', 'drain', 'drainlast', 'noapp')},
                     'producers_histogram': {str(n): sum(1 for c, _ in results if c['n'] == n) for n in (1, 2, 4, 8, 16)},
                     'sinkdelay_histogram': {str(d): sum(1 for c, _ in results if c['sinkdelay'] == d) for d in range(3)},
                     'fatal_level_messages': stats['fatal_msgs'], 'texts_with_embedded_NUL': stats['nul_texts'],
@@ -455,6 +482,9 @@ def run():
                     'time_format_runs': stats['time_format_runs'], 'rendered_time_texts_compared': stats['rendered_times_checked'],
                     'time_format_histogram': {str(t): sum(1 for c, _ in results if c.get('tfmt', 0) == t) for t in (0, 1)},
                     'translated_time_source': stats['model_time_source'],
+                    'moveToOwnThread_before_QCoreApplication_runs': stats['noapp_runs'], 'same_scenario_with_application_first_runs': stats['noapp_control_runs'],
+                    'deliveries_checked_on_logger_thread_moved_before_app': stats['deliveries_moved_before_app'],
+                    'model_sink_thread_by_application_object_at_move': stats['model_sink_thread'],
                     'stalled_sink_runs': stats['stalled_sink_runs'], 'max_call_ms_while_sink_stalled': stats['max_call_ms_while_sink_stalled'],
                     'violation_kinds': stats['kinds'], 'sanitizer_variant': san})
     chk.samples = [{'config': c, 'header': r[1], 'first_events': r[2][:14]} for c, r in results[:3]]
@@ -472,10 +502,11 @@ def replay(path):
     impl = vlib.build_harness('async', 'san' if r.get('sanitizer') else '')
     cfg = {k: r.get(k, 0) for k in ('mode', 'n', 'per', 'seed', 'perturb', 'sinkdelay', 'stall', 'tfmt')}
     cfg['tz'] = r.get('tz', '')
+    cfg['noappfirst'] = r.get('noappfirst', 0)
     print('recorded:', r.get('kind'), r.get('detail') or r.get('fields'), {k: r.get(k) for k in ('synchronous', 'asynchronous') if k in r})
     for k in range(3):
         rc, hdr, ev, tw, asy, flushes, err = run_one(impl, cfg)
-        cm = 'logger' if cfg['mode'] == 'relog' else ('bare' if cfg['mode'] in DRAIN else cfg['mode'])
+        cm = 'logger' if cfg['mode'] == 'relog' else ('bare' if cfg['mode'] in DRAIN or cfg['mode'] == 'noapp' else cfg['mode'])
         diffs = [(p, i, [FIELDS[b] for b in content_diff(cm, tw[(p, i)], d, cfg['tfmt'])]) for _, p, i, _, d in asy if (p, i) in tw and content_diff(cm, tw[(p, i)], d, cfg['tfmt'])]
         if cfg['tfmt']:
             mt = re.search(r'tcal=(-?\d+)', hdr or '')
